@@ -117,50 +117,73 @@ Variable lang_match : str -> item -> item -> fmap str -> outcome bool.
 Variable lang_update : str -> item -> item -> fmap str -> outcome item.
 Variable flavour : sdk.
 
-(* UpdateTable / AddIndex keep the declared types of the table's key attributes *)
-Definition EK (t : table) (defs : list (str * str)) : Prop :=
-  def_type (set_defs (t_defs t) defs) (hashk (t_ks t)) = def_type (t_defs t) (hashk (t_ks t)) /\
-  (rangek (t_ks t) = [] \/ def_type (set_defs (t_defs t) defs) (rangek (t_ks t)) = def_type (t_defs t) (rangek (t_ks t))).
+(* the table's own key attributes are declared (CreateTable checks it; UpdateTable can not re-type them) *)
+Definition key_declared (t : table) : Prop :=
+  mem (hashk (t_ks t)) (t_defs t) = true /\ (rangek (t_ks t) = [] \/ mem (rangek (t_ks t)) (t_defs t) = true).
 
-Definition TK (t : table) : Prop := TInv t /\ KInv t /\ secondary (t_ks t) = false.
+Definition TK (t : table) : Prop := TInv t /\ KInv t /\ secondary (t_ks t) = false /\ key_declared t.
 
-Lemma ks_put c t it cond names vals : t_ks (fst (t_put lang_match c t it cond names vals)) = t_ks t.
+Lemma ks_put c t it cond names vals : t_ks (fst (t_put lang_match c t it cond names vals)) = t_ks t /\ t_defs (fst (t_put lang_match c t it cond names vals)) = t_defs t.
 Proof.
   unfold t_put. destruct (get_key _ _ _); cbn; auto. destruct (check_cond _ _ _ _ _ _ _) as [[[] f]| | |]; cbn; auto.
-  destruct (validate_index_keys _ _ _); reflexivity.
+  destruct (validate_index_keys _ _ _); auto.
 Qed.
 
-Lemma ks_update c t k e cond names vals : t_ks (fst (t_update lang_match lang_update c t k e cond names vals)) = t_ks t.
+Lemma ks_update c t k e cond names vals : t_ks (fst (t_update lang_match lang_update c t k e cond names vals)) = t_ks t /\ t_defs (fst (t_update lang_match lang_update c t k e cond names vals)) = t_defs t.
 Proof.
   unfold t_update. destruct (get_key _ _ _); cbn; auto. destruct (check_cond _ _ _ _ _ _ _) as [[[] f]| | |]; cbn; auto.
-  destruct (interp_update _ _ _ _ _ _ _) as [[it' f']| | |]; cbn; auto. destruct (validate_index_keys _ _ _); reflexivity.
+  destruct (interp_update _ _ _ _ _ _ _) as [[it' f']| | |]; cbn; auto. destruct (validate_index_keys _ _ _); auto.
 Qed.
 
-Lemma ks_delete c t k cond names vals : t_ks (fst (t_delete lang_match c t k cond names vals)) = t_ks t.
+Lemma ks_delete c t k cond names vals : t_ks (fst (t_delete lang_match c t k cond names vals)) = t_ks t /\ t_defs (fst (t_delete lang_match c t k cond names vals)) = t_defs t.
 Proof.
   unfold t_delete. destruct (get_key _ _ _); cbn; auto. destruct (check_cond _ _ _ _ _ _ _) as [[[] f]| | |]; cbn; auto.
-  destruct (lookup _ _); cbn; auto. destruct (Nat.eqb _ _); reflexivity.
+  destruct (lookup _ _); cbn; auto. destruct (Nat.eqb _ _); auto.
 Qed.
 
+Lemma key_declared_same t t' : t_ks t' = t_ks t -> t_defs t' = t_defs t -> key_declared t -> key_declared t'.
+Proof. unfold key_declared. intros -> ->. auto. Qed.
+
 Theorem KInv_reachable ops cn tn c t :
-  run_env EK (UK lang_update) lang_match lang_update flavour [] ops ->
+  run_env (UK lang_update) lang_match lang_update flavour [] ops ->
   lookup cn (fst (run lang_match lang_update flavour [] ops)) = Some c ->
   lookup tn (c_tables c) = Some t -> TInv t /\ KInv t /\ secondary (t_ks t) = false.
 Proof.
-  apply (P_reachable TK EK (UK lang_update) lang_match lang_update flavour).
-  - intros c0 t0 it cond names vals [H1 [H2 H3]]. split; [now apply TInv_put|split; [now apply KInv_put|now rewrite ks_put]].
-  - intros c0 t0 k e cond names vals [H1 [H2 H3]] Hu. split; [now apply TInv_update|split; [now apply KInv_update|now rewrite ks_update]].
-  - intros c0 t0 k cond names vals [H1 [H2 H3]]. split; [now apply TInv_delete|split; [now apply KInv_delete|now rewrite ks_delete]].
-  - intros t0 [_ [_ H3]]. split; [apply TInv_clear|split; [|exact H3]]. intros k it L. discriminate.
-  - intros n h r defs. split; [split; cbn; [apply wf_nil|reflexivity]|split; [|reflexivity]]. intros k it L. discriminate.
-  - intros t0 ppr d t' [H1 [H2 H3]] Ea. unfold add_global_index in Ea.
+  intros He Hc Ht.
+  assert (TK t) as [H1 [H2 [H3 _]]]; [|auto].
+  revert He Hc Ht. apply (P_reachable TK (UK lang_update) lang_match lang_update flavour).
+  - intros c0 t0 it cond names vals [H1 [H2 [H3 H4]]]. destruct (ks_put c0 t0 it cond names vals) as [K D].
+    split; [now apply TInv_put|split; [now apply KInv_put|split; [now rewrite K|eapply key_declared_same; eauto]]].
+  - intros c0 t0 k e cond names vals [H1 [H2 [H3 H4]]] Hu. destruct (ks_update c0 t0 k e cond names vals) as [K D].
+    split; [now apply TInv_update|split; [now apply KInv_update|split; [now rewrite K|eapply key_declared_same; eauto]]].
+  - intros c0 t0 k cond names vals [H1 [H2 [H3 H4]]]. destruct (ks_delete c0 t0 k cond names vals) as [K D].
+    split; [now apply TInv_delete|split; [now apply KInv_delete|split; [now rewrite K|eapply key_declared_same; eauto]]].
+  - intros t0 [_ [_ [H3 H4]]]. split; [apply TInv_clear|split; [|split; [exact H3|exact H4]]]. intros k it L. discriminate.
+  - intros n oh orr h r defs CS. split; [split; cbn; [apply wf_nil|reflexivity]|split; [|split; [reflexivity|]]].
+    + intros k it L. discriminate.
+    + unfold key_declared; cbn. unfold check_schema in CS.
+      destruct oh as [[|c0 hk]|]; try discriminate.
+      destruct (mem (c0 :: hk) defs) eqn:M; [|discriminate].
+      destruct orr as [[|c1 rk]|]; inversion CS; subst; auto.
+      destruct (mem (c1 :: rk) defs) eqn:M2; inversion CS; subst; auto.
+  - intros t0 ppr d t' [H1 [H2 [H3 H4]]] Ea. unfold add_global_index in Ea.
     destruct (negb ppr && negb (id_throughput d)); [discriminate|].
-    destruct (check_schema _ _ _) as [[h r]|]; [|discriminate]. inversion Ea; subst. split; [exact H1|split; [exact H2|exact H3]].
-  - intros t0 d t' [H1 [H2 H3]] _ Ea. unfold add_local_index in Ea.
-    destruct (check_schema _ _ _) as [[h r]|]; [|discriminate]. inversion Ea; subst. split; [exact H1|split; [exact H2|exact H3]].
-  - intros t0 defs [H1 [H2 H3]] [E1 E2]. split; [exact H1|split; [|exact H3]].
-    intros k it L. cbn [t_data t_ks t_defs] in *. rewrite (get_key_defs_agree (t_ks t0) (t_defs t0)); auto.
-  - intros t0 n [H1 [H2 H3]]. split; [exact H1|split; [exact H2|exact H3]].
+    destruct (check_schema _ _ _) as [[h r]|]; [|discriminate]. inversion Ea; subst. split; [exact H1|split; [exact H2|split; [exact H3|exact H4]]].
+  - intros t0 d t' [H1 [H2 [H3 H4]]] _ Ea. unfold add_local_index in Ea.
+    destruct (check_schema _ _ _) as [[h r]|]; [|discriminate]. inversion Ea; subst. split; [exact H1|split; [exact H2|split; [exact H3|exact H4]]].
+  - (* UpdateTable accepted the definitions: the key attributes keep their type *)
+    intros t0 defs [H1 [H2 [H3 [D1 D2]]]] Hok. destruct (used_key_attrs_table t0) as [U1 U2].
+    assert (def_type (set_defs (t_defs t0) defs) (hashk (t_ks t0)) = def_type (t_defs t0) (hashk (t_ks t0))) as E1
+      by (apply defs_ok_protected; auto).
+    assert (rangek (t_ks t0) = [] \/ def_type (set_defs (t_defs t0) defs) (rangek (t_ks t0)) = def_type (t_defs t0) (rangek (t_ks t0))) as E2
+      by (destruct D2 as [D2|D2]; [now left|right; apply defs_ok_protected; auto]).
+    split; [exact H1|split; [|split; [exact H3|]]].
+    + intros k it L. cbn [t_data t_ks t_defs] in *. rewrite (get_key_defs_agree (t_ks t0) (t_defs t0)); auto.
+    + unfold key_declared; cbn [t_ks t_defs].
+      assert (forall a, mem_str a (used_key_attrs t0) = true -> mem a (t_defs t0) = true -> mem a (set_defs (t_defs t0) defs) = true) as Hm.
+      { intros a Hu Ha. unfold mem. rewrite (set_defs_protected (t_defs t0) (used_key_attrs t0) defs (t_defs t0)); auto. }
+      split; [now apply Hm|]. destruct D2 as [D2|D2]; [now left|right; now apply Hm].
+  - intros t0 n [H1 [H2 [H3 H4]]]. split; [exact H1|split; [exact H2|split; [exact H3|exact H4]]].
 Qed.
 
 End Reach.
